@@ -215,11 +215,47 @@ func recovers(fn *ssa.Function) bool {
 			if lit == nil {
 				continue
 			}
+			// the recovered panic becomes the function's error result: where recover() returned something, a non-nil error is
+			// stored into a captured error variable (the named result)
+			var rec *ssa.Call
 			for _, lb := range lit.Blocks {
 				for _, li := range lb.Instrs {
 					if call, ok := li.(*ssa.Call); ok {
 						if bi, ok := call.Call.Value.(*ssa.Builtin); ok && bi.Name() == "recover" {
-							return true
+							rec = call
+						}
+					}
+				}
+			}
+			if rec == nil {
+				continue
+			}
+			for _, lb := range lit.Blocks {
+				for _, li := range lb.Instrs {
+					st, ok := li.(*ssa.Store)
+					if !ok {
+						continue
+					}
+					// the named result: captured by the literal, or handed to a deferred function by address
+					var fv ssa.Value
+					switch a := st.Addr.(type) {
+					case *ssa.FreeVar:
+						fv = a
+					case *ssa.Parameter:
+						fv = a
+					}
+					if fv == nil {
+						continue
+					}
+					pt, ok := fv.Type().Underlying().(*types.Pointer)
+					if !ok || !isErrorType(pt.Elem()) || !definitelyNonNilErr(st.Val, lb) {
+						continue
+					}
+					for _, cd := range domConds(lb) {
+						if bo, ok := cd.V.(*ssa.BinOp); ok && (bo.X == ssa.Value(rec) || bo.Y == ssa.Value(rec)) && (isNilConst(bo.X) || isNilConst(bo.Y)) {
+							if bo.Op == token.NEQ && cd.Truth || bo.Op == token.EQL && !cd.Truth {
+								return true
+							}
 						}
 					}
 				}
